@@ -15,16 +15,49 @@ from ..corr import build_model
 HEAD = 'Binde "Duden/Ausgabe" ein.\n'
 
 
-def module_src(k, imports, listed, graph_vals):
-    """source of module k; imports: list of module numbers (source order); listed[i] = True when only the
-    global of module i is imported by name"""
+DIRS = ["", "pkg", "pkg/tief"]
+
+
+def relpath(frm, to, name):
+    """the import path of module file `name` in directory `to`, written in a module of directory `frm`"""
+    import posixpath
+    return posixpath.normpath(posixpath.join(posixpath.relpath(to or ".", frm or "."), name))
+
+
+def walk(dirs, d, recursive):
+    """modules a directory import of d brings in, in the order of filepath.WalkDir: the entries of a directory
+    in lexical order, sub-directories (if recursive) entered where they stand"""
+    entries = [("m%d.ddp" % k, k) for k, dk in dirs.items() if dk == d]
+    subs = sorted({dk[len(d) + 1:].split("/")[0] for dk in dirs.values() if dk.startswith(d + "/")}) if recursive else []
+    entries += [(sname, None) for sname in subs]
+    out = []
+    for name, k in sorted(entries):
+        if k is not None:
+            out.append(k)
+        else:
+            out += walk(dirs, d + "/" + name, True)
+    return out
+
+
+def module_src(k, stmts, listed, graph_vals, dirs=None):
+    """source of module k; stmts: its import statements in source order — a module number, or
+    ("dir", directory, recursive, modules it brings in); listed[i] = True when only the global of module i is
+    imported by name"""
+    dirs = dirs or {}
+    here = dirs.get(k, "")
     s = HEAD
     terms = [str(k)]
-    for i in imports:
+    for st in stmts:
+        if isinstance(st, tuple):
+            _, d, rec, members = st
+            s += 'Binde %salle Module aus "%s" ein.\n' % ("rekursiv " if rec else "", relpath(here, d, ""))
+            terms += ["g%d" % i for i in members]
+            continue
+        i = st
         if listed.get(i):
-            s += 'Binde g%d aus "m%d" ein.\n' % (i, i)
+            s += 'Binde g%d aus "%s" ein.\n' % (i, relpath(here, dirs.get(i, ""), "m%d" % i))
         else:
-            s += 'Binde "m%d" ein.\n' % i
+            s += 'Binde "%s" ein.\n' % relpath(here, dirs.get(i, ""), "m%d" % i)
         terms.append("g%d" % i)
     s += ("Die öffentliche Funktion melde%d mit dem Parameter n vom Typ Zahl, gibt eine Zahl zurück, macht:\n"
           "\tSchreibe \"init %d \".\n\tSchreibe n auf eine Zeile.\n\tGib n zurück.\nUnd kann so benutzt werden:\n\t\"melde%d <n>\"\n\n" % (k, k, k))
@@ -40,37 +73,70 @@ def module_src(k, imports, listed, graph_vals):
     return s
 
 
-def gen_case(rng):
+def flat(stmts):
+    out = []
+    for st in stmts:
+        out += list(st[3]) if isinstance(st, tuple) else [st]
+    return out
+
+
+def gen_case(rng, with_dirs=False):
+    """(n, graph, listed, vals, main import statements, dirs, import statements per module); graph[k] is the list
+    of modules the import statements of k bring in, in order (a directory import stands for its modules)"""
     n = 2 + rng.below(4)
-    graph = {}
-    listed = {}
+    dirs = {k: (DIRS[rng.below(3)] if with_dirs and rng.below(100) < 60 else "") for k in range(1, n + 1)}
+    graph, listed, stmts = {}, {}, {}
     for k in range(1, n + 1):
         lower = rng.shuffle(list(range(1, k)))
-        imps = [i for i in lower if rng.below(100) < 55]
-        graph[k] = imps
-        listed[k] = {i: rng.below(100) < 35 for i in imps}
+        st = [i for i in lower if rng.below(100) < 55]
+        if with_dirs and rng.below(100) < 50:
+            # a directory import, where every module it brings in has a smaller number (and so is not k itself)
+            d = DIRS[1 + rng.below(2)]
+            rec = rng.below(2) == 1
+            members = walk(dirs, d, rec)
+            if members and all(i < k for i in members):
+                st = [i for i in st if i not in members]       # importing a module twice into one file is an error
+                st.insert(rng.below(len(st) + 1), ("dir", d, rec, tuple(members)))
+        stmts[k] = st
+        graph[k] = flat(st)
+        listed[k] = {i: rng.below(100) < 35 for i in st if not isinstance(i, tuple)}
     vals = {}
     for k in range(1, n + 1):
         vals[k] = k + sum(vals[i] for i in graph[k])
-    main_imports = [i for i in rng.shuffle(list(range(1, n + 1))) if rng.below(100) < 65] or [n]
-    return n, graph, listed, vals, main_imports
+    main = [i for i in rng.shuffle(list(range(1, n + 1))) if rng.below(100) < 65] or [n]
+    if with_dirs:
+        for d in DIRS[1:]:
+            rec = rng.below(2) == 1
+            members = walk(dirs, d, rec)
+            if members and rng.below(100) < 60 and not any(i in flat([x for x in main if isinstance(x, tuple)]) for i in members):
+                main = [i for i in main if i not in members]
+                main.insert(rng.below(len(main) + 1), ("dir", d, rec, tuple(members)))
+    return n, graph, listed, vals, main, dirs, stmts
 
 
 def build_program(case, order_of):
     """files + expected stdout; order_of(imports_so_far, new_import) gives the newly initialised modules"""
-    n, graph, listed, vals, main_imports = case
-    files = {"m%d.ddp" % k: module_src(k, graph[k], listed[k], vals) for k in range(1, n + 1)}
+    n, graph, listed, vals, main_imports, dirs, stmts = case
+    files = {(dirs[k] + "/" if dirs[k] else "") + "m%d.ddp" % k: module_src(k, stmts[k], listed[k], vals, dirs) for k in range(1, n + 1)}
     main = HEAD + 'Schreibe "main start" auf eine Zeile.\n'
     exp = "main start\n"
     done = []
-    for j, m in enumerate(main_imports):
-        main += 'Binde "m%d" ein.\n' % m
-        for x in order_of(done, m):
-            exp += "init %d %d\ninit %d %d\n" % (x, vals[x], x, 100 + x)
-            done.append(x)
-        main += 'Schreibe "nach %d" auf eine Zeile.\n' % m
-        exp += "nach %d\n" % m
-    for m in main_imports:
+    for j, st in enumerate(main_imports):
+        if isinstance(st, tuple):
+            main += 'Binde %salle Module aus "%s" ein.\n' % ("rekursiv " if st[2] else "", st[1])
+        else:
+            main += 'Binde "%s" ein.\n' % relpath("", dirs[st], "m%d" % st)
+        for m in flat([st]):
+            for x in order_of(done, m):
+                exp += "init %d %d\ninit %d %d\n" % (x, vals[x], x, 100 + x)
+                done.append(x)
+        main += 'Schreibe "nach %d" auf eine Zeile.\n' % j
+        exp += "nach %d\n" % j
+    shown = []
+    for m in flat(main_imports):
+        if m in shown:
+            continue
+        shown.append(m)
         main += "Schreibe g%d auf eine Zeile.\nSchreibe (lies%d 1) auf eine Zeile.\n" % (m, m)
         exp += "%d\n%d\n" % (vals[m], 100 + m + vals[m] + 1000 + m + 1)
     files["main.ddp"] = main
@@ -127,12 +193,12 @@ def check(res, tier):
     model = build_model()
     ddp = pipeline.build()
     quick = tier == "quick"
-    cases = [gen_case(rng) for _ in range(200 if quick else 1500)]
+    cases = [gen_case(rng) for _ in range(150 if quick else 1000)] + [gen_case(rng, True) for _ in range(100 if quick else 800)]
     # the initialisation sequences from the model, one request per import statement of a main module
     reqs = []
-    for n, graph, listed, vals, main_imports in cases:
+    for n, graph, listed, vals, main_imports, dirs, stmts in cases:
         g = ";".join("%d:%s" % (k, ",".join(map(str, graph[k]))) for k in graph)
-        reqs.append("modinit 50 %s %s" % (g, ",".join(map(str, main_imports))))
+        reqs.append("modinit 50 %s %s" % (g, ",".join(map(str, flat(main_imports)))))
     seqs = [[int(x) for x in a.split(",") if x] for a in corr.run_lines(model, reqs)]
     jobs, exps = [], []
     cfgs = [pipeline.Config(opt=1)] if quick else [pipeline.Config(opt=0), pipeline.Config(opt=2), pipeline.Config(opt=1, module_link=False)]
@@ -155,6 +221,8 @@ def check(res, tier):
         res.evaluations += 1
         st[r.cls] += 1
         res.nontrivial("graph:%d:%s" % (case[0], ",".join(map(str, case[4]))))
+        if any(isinstance(x, tuple) for x in case[4]) or any(isinstance(x, tuple) for v in case[6].values() for x in v):
+            st["with-directory-import"] += 1
         if r.cls != "ok" or r.stdout != exp:
             res.violation("modules:%s:%s" % (cfg.name(), hash(exp) % 10 ** 8),
                           "initialisation order / visibility differs from the model (%s): %s" % (cfg.name(), r.cls),
